@@ -6,3 +6,7 @@ package common
 // Type syntax is a function of the type and the namespace (the model is not modified).
 //@ func TypeSyntax
 //@   pure
+//@ func AbstractWriterName
+//@   pure
+//@ func AbstractReaderName
+//@   pure
